@@ -91,9 +91,10 @@ class ListWrapper(typing.MutableSequence[T]):
         v: typing.Union[T, typing.Iterable[T]],
     ) -> None:
         if isinstance(i, slice):
-            assert isinstance(v, typing.Iterable)
             indices = range(*i.indices(len(self)))
-            values = list(v)
+            # (a value that is no iterable raises TypeError here, as it does
+            # for list, and nothing has been touched)
+            values = list(typing.cast(typing.Iterable[T], v))
             if i.step not in (None, 1) and len(values) != len(indices):
                 # Fail before any element is detached, as list does.
                 raise ValueError(
